@@ -15,6 +15,7 @@ import (
 
 	"github.com/elk-language/elk/parser"
 	"github.com/elk-language/elk/parser/ast"
+	"github.com/elk-language/elk/types"
 )
 
 // fields that legitimately change while checking an expression
@@ -83,7 +84,11 @@ func (c *Checker) verifSnapshot() map[string]string {
 // a method `def f: Int ! String` that has already seen a `defer`, inside a `do … catch`, with a
 // local defined, and returns the names of the Checker fields that differ afterwards, plus the
 // failure diagnostics produced.
-func VerifClosureContextDiff(src string) (leaked []string, diags []string, err error) {
+//
+// variant 0: method context as described; variant 1: the context of an `init` (initMode, void
+// return type, nothing thrown, generator flag set) — so that a field that checkMethod itself
+// sets to the method-context value cannot hide a missing restore.
+func VerifClosureContextDiff(src string, variant int) (leaked []string, diags []string, err error) {
 	c := New()
 	program, perr := parser.Parse("<verif-ctx>", src)
 	if perr != nil && perr.IsFailure() {
@@ -104,6 +109,13 @@ func VerifClosureContextDiff(src string) (leaked []string, diags []string, err e
 	c.setHasDefer(true)
 	c.setGenerator(false)
 	c.pushCatchScope(makeCatchScope(c.StdString(), true))
+	if variant == 1 {
+		c.mode = initMode
+		c.returnType = types.Void{}
+		c.throwType = types.Never{}
+		c.setGenerator(true)
+		c.setHasDefer(false)
+	}
 	c.pushNestedLocalEnv(defaultLocalEnvType)
 	c.addLocal("outer", newLocal(c.StdInt(), true, false))
 
